@@ -390,6 +390,13 @@ func (h *HttpServer) openToken(version byte, token []byte, aad []byte, out inter
 	if err != nil {
 		return &RpcError{Type: "RuntimeError", Message: "Malformed state token"}
 	}
+	// Accept only the spelling sealToken emits. The lenient decoder skips CR
+	// and LF and ignores non-zero trailing bits in the last quantum, so
+	// without this every sealed token has many accepted spellings: text that
+	// was altered in transit would still resume the stream.
+	if base64.StdEncoding.EncodeToString(raw) != string(token) {
+		return &RpcError{Type: "RuntimeError", Message: "Malformed state token"}
+	}
 	if len(raw) < stateTokenMinLen {
 		return &RpcError{Type: "RuntimeError", Message: "Malformed state token"}
 	}
